@@ -4,6 +4,7 @@ package sqlmerge
 
 import (
 	"fmt"
+	"time"
 	"strings"
 	"testing"
 
@@ -20,16 +21,15 @@ func TestVerif_C29(t *testing.T) {
 	defer rec.Write(t)
 	dir, cleanup := vh.ScratchDir(t, "c29")
 	defer cleanup()
-	srv, err := vsql.StartServer(dir)
+	env, err := mNewEnv(t, dir)
 	if err != nil {
 		vh.Inconclusive(t, "start server: %v", err)
 	}
-	defer srv.Stop()
-	admin := srv.Session(t, "admin", "")
-	defer admin.Close()
-	vh.Check(t, "merge", 260, 1300, func(rt *rapid.T) {
-		c29Case(rt, srv, admin, rec)
+	defer env.srv.Stop()
+	vh.Check(t, "merge", 200, 1000, func(rt *rapid.T) {
+		c29Case(rt, env, rec)
 	})
+	fmt.Println("PHASES", phaseT)
 }
 
 var c29Assumptions = []string{
@@ -89,29 +89,23 @@ func mRunHistory(rt *rapid.T, se *vsql.Session, side *mSide, label string, table
 	}
 }
 
-// mMergeResult is what one executed merge looked like.
-type mMergeResult struct {
-	rows      []string // sorted rows of the table, columns in cols order
-	conflicts []string // sorted conflict rows
-	flag      string   // conflicts column of dolt_merge
-}
-
-// mDoMerge creates branch work at from, merges other into it and returns the dolt_merge row.
-func mDoMerge(rt *rapid.T, se *vsql.Session, mode mergeMode, work, from, other string) (flag string, ff string) {
-	se.MustExec(rt, fmt.Sprintf("CALL dolt_checkout('-b','%s','%s')", work, from))
+// mDoMerge creates branch work at from, merges other into it and returns the conflicts flag.
+func mDoMerge(rt *rapid.T, c *mCase, mode mergeMode, work, from, other string) (flag string) {
+	c.checkoutNew(rt, work, from)
+	se := c.se
 	if mode == modeTxn {
 		se.MustExec(rt, "SET autocommit = 0")
 	} else {
 		se.MustExec(rt, "SET @@dolt_allow_commit_conflicts = 1")
 	}
-	res, err := se.Query(fmt.Sprintf("CALL dolt_merge('%s')", other))
+	res, err := se.Query(fmt.Sprintf("CALL dolt_merge('%s')", c.pfx+other))
 	if err != nil {
 		rt.Fatalf("dolt_merge('%s') into %s failed: %v", other, from, err)
 	}
 	if len(res.Data) != 1 || len(res.Data[0]) < 3 {
 		rt.Fatalf("dolt_merge returned %v", res)
 	}
-	return res.Data[0][2], res.Data[0][1]
+	return res.Data[0][2]
 }
 
 func mEndMerge(rt *rapid.T, se *vsql.Session, mode mergeMode, hadConflicts bool) {
@@ -193,42 +187,52 @@ func mCheckIndex(rt *rapid.T, se *vsql.Session, what, table string, cols []strin
 	}
 }
 
-func c29Case(rt *rapid.T, srv *vsql.Server, admin *vsql.Session, rec *vh.Recorder) {
-	keyHi := 24
+func c29Case(rt *rapid.T, env *mEnv, rec *vh.Recorder) {
+	keyHi := 16
 	if rapid.IntRange(0, 7).Draw(rt, "widekeys") == 0 {
 		keyHi = 250
 	}
 	sp := mGenSpec(rt, mSpecOpts{keyMaxLo: 3, keyMaxHi: keyHi})
 	base := mNewSide(sp)
 	nBase := rapid.IntRange(0, 200).Draw(rt, "nbase")
+	if nBase < 20 {
+		nBase = 20 // most key ranges hold fewer keys anyway; an empty base is drawn through keymax/skips
+	}
+	if rapid.IntRange(0, 19).Draw(rt, "emptybase") == 0 {
+		nBase = 0
+	}
 	baseStmts := base.genBaseRows(rt, nBase, sp.KeyMax)
 	mode := mergeMode(rapid.IntRange(0, 1).Draw(rt, "mode"))
 
-	db := srv.NewDBName()
-	admin.MustExec(rt, "CREATE DATABASE "+db)
-	defer admin.Exec("DROP DATABASE " + db)
-	se := srv.Session(rt, "s", db)
-	defer se.Close()
+	c := env.newCase(rt)
+	defer func() { t0 := time.Now(); c.close(); phase("close", t0) }()
+	se := c.se
+	tph := time.Now()
+	c.checkoutNew(rt, "base", "")
 	se.MustExec(rt, sp.create("t"))
 	for _, st := range baseStmts {
 		se.MustExec(rt, mInst(st, "t"))
 	}
 	se.MustExec(rt, "CALL dolt_commit('-A','--allow-empty','-m','base')")
-	se.MustExec(rt, "CALL dolt_branch('b1')")
-	se.MustExec(rt, "CALL dolt_branch('b2')")
 
-	hop := mHistoryOpts{maxCommits: 3, maxOps: 6, op: mOpOpts{keyMax: sp.KeyMax, maxRange: 3, wInsert: 3, wUpdate: 5, wDelete: 2}}
+	hop := mHistoryOpts{maxCommits: 3, maxOps: 7, op: mOpOpts{keyMax: sp.KeyMax, maxRange: 2, wInsert: 3, wUpdate: 6, wDelete: 2}}
 	tables := []string{"t"}
 
+	phase("base", tph)
+	tph = time.Now()
 	ours := base.clone()
-	se.MustExec(rt, "CALL dolt_checkout('b1')")
+	c.checkoutNew(rt, "b1", "base")
 	mRunHistory(rt, se, ours, "ours", tables, hop, nil)
 
 	theirs := base.clone()
 	hop.op.hot = ours.touchedKeys()
-	se.MustExec(rt, "CALL dolt_checkout('b2')")
+	hop.op.other = ours
+	c.checkoutNew(rt, "b2", "base")
 	mRunHistory(rt, se, theirs, "theirs", tables, hop, nil)
 
+	phase("hist", tph)
+	tph = time.Now()
+	defer func() { phase("merges", tph) }()
 	cols := mNames(sp.Cols)
 	n := len(cols)
 	cq := mConflictQuery("t", cols, cols, cols)
@@ -239,7 +243,7 @@ func c29Case(rt *rapid.T, srv *vsql.Server, admin *vsql.Session, rec *vh.Recorde
 
 	// direction 1: theirs into ours
 	exp1, conf1 := vsql.Merge3(base.T, ours.T, theirs.T)
-	flag, _ := mDoMerge(rt, se, mode, "m1", "b1", "b2")
+	flag := mDoMerge(rt, c, mode, "m1", "b1", "b2")
 	if (flag != "0") != (len(conf1) > 0) {
 		rt.Fatalf("dolt_merge(b2 into b1) conflicts flag %s, model has %d conflicts", flag, len(conf1))
 	}
@@ -248,7 +252,7 @@ func c29Case(rt *rapid.T, srv *vsql.Server, admin *vsql.Session, rec *vh.Recorde
 
 	// direction 2: ours into theirs, from the same two heads
 	exp2, conf2 := vsql.Merge3(base.T, theirs.T, ours.T)
-	flag, _ = mDoMerge(rt, se, mode, "m2", "b2", "b1")
+	flag = mDoMerge(rt, c, mode, "m2", "b2", "b1")
 	if (flag != "0") != (len(conf2) > 0) {
 		rt.Fatalf("dolt_merge(b1 into b2) conflicts flag %s, model has %d conflicts", flag, len(conf2))
 	}
@@ -333,3 +337,7 @@ func c29CheckSwap(rt *rapid.T, rows1, rows2, crow1, crow2 []string, conf []vsql.
 		rt.Fatalf("conflicts of the swapped merge are not mirrored\n b2 into b1: %s\n mirrored b1 into b2: %s", vsql.Show(crow1), vsql.Show(mir))
 	}
 }
+
+var phaseT = map[string]time.Duration{}
+
+func phase(name string, t0 time.Time) { phaseT[name] += time.Since(t0) }
